@@ -119,30 +119,36 @@ def quotedBody : List Char → Option (List Char × List Char)
 
 def isSep (c : Char) : Bool := c == '=' || c == ';'
 
-/-- one match of `_cookie_re` at the start of `s` (which contains a `;` and no LF):
-returns (key, value, rest). -/
-def matchOne (s : List Char) : Option (List Char × List Char × List Char) :=
-  let key := s.takeWhile (fun c => !isSep c)
-  let r := s.dropWhile (fun c => !isSep c)
+/-- second alternative of the value group: lazy `.*?` up to the first `;` -/
+def alt2 (key r1 : List Char) : Option (List Char × List Char × List Char) :=
+  match r1.dropWhile (· != ';') with
+  | [] => none
+  | _ :: rest =>
+    some (key, Py.rstripBy Py.isReSpaceA (r1.takeWhile (· != ';')), rest.dropWhile Py.isReSpaceA)
+
+/-- the value group after `=` and optional white space -/
+def matchValue (key r1 : List Char) : Option (List Char × List Char × List Char) :=
+  match r1 with
+  | '"' :: q =>
+    match quotedBody q with
+    | some (b, after) =>
+      match after.dropWhile Py.isReSpaceA with
+      | ';' :: rest => some (key, '"' :: b ++ ['"'], rest.dropWhile Py.isReSpaceA)
+      | _ => alt2 key r1
+    | none => alt2 key r1
+  | _ => alt2 key r1
+
+/-- what follows the key: `;` (no value group) or `=` value -/
+def matchRest (key r : List Char) : Option (List Char × List Char × List Char) :=
   match r with
   | [] => none
   | ';' :: rest => some (key, [], rest.dropWhile Py.isReSpaceA)
-  | _ :: rest0 =>   -- '='
-    let r1 := rest0.dropWhile Py.isReSpaceA
-    let alt2 : Option (List Char × List Char × List Char) :=
-      let v := r1.takeWhile (· != ';')
-      match r1.dropWhile (· != ';') with
-      | [] => none
-      | _ :: rest => some (key, Py.rstripBy Py.isReSpaceA v, rest.dropWhile Py.isReSpaceA)
-    match r1 with
-    | '"' :: q =>
-      match quotedBody q with
-      | some (b, after) =>
-        match after.dropWhile Py.isReSpaceA with
-        | ';' :: rest => some (key, '"' :: b ++ ['"'], rest.dropWhile Py.isReSpaceA)
-        | _ => alt2
-      | none => alt2
-    | _ => alt2
+  | _ :: rest0 => matchValue key (rest0.dropWhile Py.isReSpaceA)
+
+/-- one match of `_cookie_re` at the start of `s` (which contains a `;` and no LF):
+returns (key, value, rest). -/
+def matchOne (s : List Char) : Option (List Char × List Char × List Char) :=
+  matchRest (s.takeWhile (fun c => !isSep c)) (s.dropWhile (fun c => !isSep c))
 
 /-- `_cookie_re.findall` -/
 def findAll : Nat → List Char → List (List Char × List Char)
